@@ -573,7 +573,32 @@ pub fn explore_program(
 }
 
 /// Run a list of programs under a time budget and fold everything into the report.
+/// Iterative deviation bounding across the whole program list: first every program at
+/// `bound - 1`, then every program at `bound` with the time that is left.
 pub fn run_programs(
+    programs: Vec<Program>,
+    bound: u32,
+    horizon: usize,
+    budget_s: f64,
+    judge: &Judge,
+    on_decision: Option<DecisionCheck>,
+    accept: &[&str],
+    report: &mut Report,
+) {
+    if bound >= 2 {
+        let t = Deadline::new(budget_s);
+        run_programs_at(programs.clone(), bound - 1, horizon, budget_s * 0.4, judge, on_decision.clone(), accept, report);
+        if !report.violations.is_empty() {
+            return;
+        }
+        let rest = (budget_s - t.elapsed()).max(1.0);
+        run_programs_at(programs, bound, horizon, rest, judge, on_decision, accept, report);
+    } else {
+        run_programs_at(programs, bound, horizon, budget_s, judge, on_decision, accept, report);
+    }
+}
+
+pub fn run_programs_at(
     programs: Vec<Program>,
     bound: u32,
     horizon: usize,
@@ -630,16 +655,16 @@ pub fn run_programs(
     for s in sample_names {
         report.sample(s);
     }
-    report.add("programs", n as u64);
-    report.add("programs_completed_at_bound", completed_programs);
-    report.add("programs_not_started_or_capped", n as u64 - completed_programs);
+    report.set("programs", n as u64);
+    report.set(&format!("programs_completed_at_bound_{bound}"), completed_programs);
+    report.set(&format!("programs_capped_at_bound_{bound}"), n as u64 - completed_programs);
     report.add("programs_with_a_single_result_vector", single_outcome);
     report.set("deviation_bound", bound);
     report.merge_map(
         "program_families",
         per_family
             .into_iter()
-            .map(|(k, v)| (k, json!({"programs": v.0, "schedules": v.1, "distinct_histories": v.2, "completed_at_bound": v.3, "deviation_bound": bound})))
+            .map(|(k, v)| (format!("{k}@bound{bound}"), json!({"programs": v.0, "schedules": v.1, "distinct_histories": v.2, "completed_at_bound": v.3, "deviation_bound": bound})))
             .collect(),
     );
     for m in machinery.into_inner().unwrap() {
@@ -664,7 +689,7 @@ pub fn run_programs(
         );
     }
     report.add("foreign_violations_seen", foreign);
-    if n as u64 > completed_programs && completed_programs == 0 {
+    if n as u64 > completed_programs && completed_programs == 0 && bound <= 1 {
         report.machinery("no program was explored to its deviation bound within the time cap");
     }
 }
